@@ -309,6 +309,40 @@ class A5History(RuleBasedStateMachine):
     def compact_bundle(self, cs):
         self.h.step(["compact", ["l"] + list(cs)])
 
+    @rule(i=st.integers(0, 10 ** 6), which=st.integers(0, 3))
+    def repeat_retyped(self, i, which):
+        """Re-issue an earlier call with one argument replaced by an equal-valued value of another type (int -> float
+        where exact, 0/1 -> bool, numeric option values -> float). Whatever a fresh process does with it (usually a
+        TypeError) is what the long-lived process must do too."""
+        if not self.h.calls:
+            return
+        call = [x for x in self.h.calls[i % len(self.h.calls)]]
+        if call[0] == "__bulk__" or len(call) < 2:
+            return
+
+        def retype(v):
+            if isinstance(v, bool):
+                return int(v)
+            if isinstance(v, int):
+                if v in (0, 1) and which == 0:
+                    return bool(v)
+                return float(v) if float(v) == v else v
+            if isinstance(v, float) and v == int(v) and abs(v) < 2 ** 53:
+                return int(v)
+            return v
+        k = 1 + which % (len(call) - 1)
+        a = call[k]
+        if isinstance(a, dict):
+            a = {kk: retype(vv) for kk, vv in a.items()}
+        elif isinstance(a, list) and a and a[0] in ("t", "l"):
+            a = [a[0]] + [retype(x) for x in a[1:]]
+        else:
+            a = retype(a)
+        if a == call[k] and type(a) is type(call[k]) and not isinstance(a, (dict, list)):
+            return
+        call[k] = a
+        self.h.step(call, is_repeat=True)
+
     @rule(i=st.integers(0, 10 ** 6))
     def repeat(self, i):
         if self.h.calls:
